@@ -405,7 +405,7 @@ func (rn *runner) request(r string) {
 
 func (rn *runner) release() {
 	rn.rec.emit("Release", nil, func(v *view) { v.released = true })
-	dl := time.Now().Add(3 * time.Second)
+	dl := time.Now().Add(8 * time.Second)
 	for {
 		fd, err := syscall.Open(rn.fifo, syscall.O_WRONLY|syscall.O_NONBLOCK, 0)
 		if err == nil {
@@ -472,19 +472,19 @@ func (rn *runner) step(st Step) {
 	case "ProcHeld":
 		rn.procHeld()
 	case "Timer":
-		rn.awaitNext("status TASK_RUNNING", 3*time.Second, func(v *view) int { return v.nStatus["TASK_RUNNING"] })
+		rn.awaitNext("status TASK_RUNNING", 8*time.Second, func(v *view) int { return v.nStatus["TASK_RUNNING"] })
 	case "Body":
 		switch {
 		case st.R == "Kill" && !ctl:
-			rn.awaitNext("status TASK_FINISHED", 3*time.Second, func(v *view) int { return v.nStatus["TASK_FINISHED"] })
+			rn.awaitNext("status TASK_FINISHED", 8*time.Second, func(v *view) int { return v.nStatus["TASK_FINISHED"] })
 		case st.R == "Kill":
 			time.Sleep(settle)
 		default:
 			r := st.R
-			rn.awaitNext("resp "+r, 4*time.Second, func(v *view) int { return v.nResp[r] })
+			rn.awaitNext("resp "+r, 8*time.Second, func(v *view) int { return v.nResp[r] })
 			if (r == "START" || r == "Trigger") && !ctl && rn.sc.Beh != "crash" {
 				// "running" means the child is set up (it has forked what it forks), not merely exec'ed
-				dl := time.Now().Add(3 * time.Second)
+				dl := time.Now().Add(8 * time.Second)
 				for time.Now().Before(dl) {
 					if _, err := os.Stat(filepath.Join(rn.dir, "ready")); err == nil {
 						break
@@ -494,9 +494,9 @@ func (rn *runner) step(st Step) {
 			}
 		}
 	case "Reap":
-		rn.awaitNext("BASIC_TASK_TERMINATED", 4*time.Second, func(v *view) int { return v.nBTT })
+		rn.awaitNext("BASIC_TASK_TERMINATED", 8*time.Second, func(v *view) int { return v.nBTT })
 	case "Proc":
-		rn.awaitNext("proc", 4*time.Second, func(v *view) int { return v.nProc })
+		rn.awaitNext("proc", 8*time.Second, func(v *view) int { return v.nProc })
 	case "LDial":
 		if rn.sc.Beh != "noready" {
 			rn.rec.await("first GetState", 6*time.Second, func(v *view) bool { return v.occSeen })
